@@ -77,6 +77,11 @@ def check_text(text: str, logic: str, timeout_ms: int = 60000, want_model: bool 
     raise SolverError(f'parse error: {e}')
   r = s.check()
   verdict = str(r)
+  if verdict == 'unknown':
+    # undecided within the budget (often CPU starvation when many checks run at once): one retry with three times the budget
+    STATS.record(logic + tag + '(retry)', 'unknown', time.time() - t0)
+    s = z3.Solver(); s.set('timeout', 3 * timeout_ms); s.from_string(text)
+    verdict = str(s.check())
   model = None
   if verdict == 'sat' and want_model:
     model = s.model()
@@ -101,6 +106,12 @@ def check_z3(assertions, logic: str, timeout_ms: int = 60000, want_model: bool =
     s.add(a)
   r = s.check()
   verdict = str(r)
+  if verdict == 'unknown':
+    STATS.record(logic + '(retry)', 'unknown', time.time() - t0)
+    s = z3.Solver(); s.set('timeout', 3 * timeout_ms)
+    for a in assertions:
+      s.add(a)
+    verdict = str(s.check())
   model = s.model() if (verdict == 'sat' and want_model) else None
   dt = time.time() - t0
   text = None
